@@ -50,7 +50,7 @@ def scenarios(c):
     scheduling point), page-boundary and ring-wrap cases; plus seeded random schedules."""
     rng = c.rng
     q = c.tier == "quick"
-    lim = 3000 if q else 40000
+    lim = 1200 if q else 40000
     S = []
     # --- UnboundedSingleQueue
     for n in range(0, 7):
@@ -76,6 +76,17 @@ def scenarios(c):
     for cap, prod, cons in [(1, [1, 1], [1, 1]), (1, [2], [2]), (2, [2], [2]), (2, [1, 1], [2]), (1, [1, 1], [2]), (2, [2], [1, 1]), (3, [3], [3])]:
         S.append("kind=pcq gran=fine mode=enum limit=%d cap=%d prod=%s cons=%s" % (
             lim, cap, ",".join(map(str, prod)), ",".join(map(str, cons))))
+    # ProduceSwap / ConsumeSwap (the variants warc_parallel uses), two and three concurrent producers
+    for cap, prod, cons in [(2, [1, 1], [2]), (1, [1, 1], [2]), (3, [2, 1], [3]), (2, [1, 1, 1], [3])]:
+        S.append("kind=pcq gran=fine mode=enum limit=%d swap=1 cap=%d prod=%s cons=%s" % (
+            lim, cap, ",".join(map(str, prod)), ",".join(map(str, cons))))
+    S.append("kind=pcq gran=sem mode=enum limit=%d swap=1 cap=2 prod=2,2 cons=2,2" % lim)
+    S.append("kind=pcq gran=fine mode=enum limit=%d swap=1 cap=2 prod=1,1 cons=1" % (4 * lim))
+    # a depth-first enumeration cut off by `limit` only varies the END of the schedule: complement every
+    # finest-granularity scenario with uniformly random schedules (deviations early in the run)
+    rr = 250 if q else 3000
+    for line in [x for x in S if "gran=fine mode=enum" in x]:
+        S.append(line.replace("mode=enum", "mode=rand runs=%d seed=%d" % (rr, rng.randrange(1 << 20))))
     # unbalanced: a consumer without matching producer / a producer without matching consumer
     S.append("kind=pcq gran=sem mode=enum limit=%d cap=2 prod=1 cons=1,1" % lim)
     S.append("kind=pcq gran=sem mode=enum limit=%d cap=1 prod=3 cons=1" % lim)
@@ -86,6 +97,13 @@ def scenarios(c):
         S.append("kind=ring gran=sem mode=enum limit=%d writes=%s" % (rlim, ",".join(map(str, w))))
     for w in ([10], [9000], [BLOCK, 1]):
         S.append("kind=ring gran=fine mode=enum limit=%d writes=%s" % (rlim, ",".join(map(str, w))))
+    # operator<< of numbers near the end of a block hands over PARTIAL blocks; then the ring wraps back to
+    # that slot and write() fills it exactly to its end (the size field of the slot must be rewritten)
+    for w in (["8187", "p10", "8182", "8192", "8192", "8192", "1"],
+              ["8180", "p19", "p19", "8154", "8192", "8192", "p1", "8191", "5"],
+              ["p5", "8187", "p3", "8192", "8192", "8189", "8192", "100"]):
+        S.append("kind=ring gran=sem mode=enum limit=%d writes=%s" % (rlim // 4, ",".join(w)))
+        S.append("kind=ring gran=fine mode=rand runs=4 seed=%d writes=%s" % (rng.randrange(1 << 20), ",".join(w)))
     # --- seeded random schedules, larger scenarios
     runs = 6 if q else 40
     S.append("kind=usq gran=fine mode=rand runs=%d seed=%d n=%d want=%d" % (runs, rng.randrange(1 << 20), 1200 if q else 12000, 1200 if q else 12000))
@@ -99,8 +117,9 @@ def scenarios(c):
         S.append("kind=pcq gran=%s mode=rand runs=%d seed=%d cap=%d prod=%s cons=%s" % (
             rng.choice(("sem", "fine")), runs, rng.randrange(1 << 20), cap, ",".join(map(str, prod)), ",".join(map(str, cons))))
     for _ in range(3 if q else 12):
-        k = rng.randrange(4, 9 if q else 40)
-        w = [rng.choice((0, 1, 100, BLOCK - 1, BLOCK, BLOCK + 1, 3000, 12000, 2 * BLOCK, 30000, rng.randrange(1, 20000))) for _ in range(k)]
+        k = rng.randrange(6, 14 if q else 40)
+        w = [rng.choice((0, 1, 100, BLOCK - 1, BLOCK, BLOCK + 1, 3000, 12000, 2 * BLOCK, 30000, rng.randrange(1, 20000),
+                         "p%d" % rng.randrange(1, 20), "p19", BLOCK - 7, BLOCK - 12)) for _ in range(k)]
         S.append("kind=ring gran=%s mode=rand runs=%d seed=%d writes=%s" % (
             rng.choice(("sem", "fine")), runs, rng.randrange(1 << 20), ",".join(map(str, w))))
     return S
@@ -170,11 +189,11 @@ def oracle(c, line, out):
     elif kind == "pcq":
         prod, cons, cap = ints(d.get("prod", "")), ints(d.get("cons", "")), int(d["cap"])
         balanced = sum(prod) == sum(cons)
-        allitems = sorted(p * 1000 + i + 1 for p, k in enumerate(prod) for i in range(k))
+        allitems = sorted(p * 1000000 + i + 1 for p, k in enumerate(prod) for i in range(k))
     else:
-        writes = ints(d.get("writes", ""))
+        writes = [x for x in d.get("writes", "").split(",") if x]
         balanced = True
-        data = b"".join(pattern(w, k) for w, k in enumerate(writes))
+        data = b"".join((b"1234567890123456789"[:int(k[1:])] if k.startswith("p") else pattern(w, int(k))) for w, k in enumerate(writes))
         want_file = "%d:%d" % (len(data), fnv(data))
     for x in execs:
         res = x.split(" | ")[-1]
@@ -217,13 +236,13 @@ def oracle(c, line, out):
                     viol("pcq-exactly-once: duplicates or foreign values %s" % flat[:30], x)
             for g in gots:
                 for p in range(len(prod)):
-                    sub = [v for v in g if v // 1000 == p]
+                    sub = [v for v in g if v // 1000000 == p]
                     if sub != sorted(sub):
                         viol("pcq-order: a consumer received producer %d's items out of order: %s" % (p, g[:30]), x)
             if len(cons) == 1 and balanced:
                 for p, k in enumerate(prod):
-                    sub = [v for v in gots[0] if v // 1000 == p]
-                    if sub != [p * 1000 + i + 1 for i in range(k)]:
+                    sub = [v for v in gots[0] if v // 1000000 == p]
+                    if sub != [p * 1000000 + i + 1 for i in range(k)]:
                         viol("pcq-order: producer %d's items arrived as %s" % (p, sub[:30]), x)
         else:
             f = kv(res)
@@ -310,6 +329,29 @@ def main(argv):
             out = fb.get(line, [])
             c.count((fl, line), bucket="sanitizer/" + fl)
             oracle(c, line + " # " + fl, out if out else ["E -1 MISSING"])
+    # --- thorough: the unbounded queue inside a real wrapper under TSan (its consumer-side Empty() is used by foldfilter)
+    if c.tier == "thorough":
+        ok, blog = build_repo(["foldfilter"], flavour="tsan")
+        if not ok:
+            c.broken.append("tsan build of foldfilter failed: " + blog[-400:])
+        else:
+            data = b"".join(b"line %d %s\n" % (i % 700, b"w" * (i % 13)) for i in range(3000))
+            env = dict(os.environ)
+            env["TSAN_OPTIONS"] = "halt_on_error=0:exitcode=66"
+            child = os.path.join(VERIF, "harness", "children", "child.py")
+            try:
+                p = subprocess.run([repo_bin("foldfilter", "tsan"), "-w", "20", child, "eager"], input=data,
+                                   stdout=subprocess.PIPE, stderr=subprocess.PIPE, env=env, timeout=600)
+                err = p.stderr.decode("latin1")
+            except subprocess.TimeoutExpired:
+                err = "timeout"
+            c.count(("tsan", "foldfilter"), bucket="sanitizer/tsan-wrapper")
+            if "ThreadSanitizer" in err or err == "timeout":
+                i = err.find("WARNING: ThreadSanitizer")
+                site = "UnboundedSingleQueue::Empty" if re.search(r"#0 Empty .*pcqueue\.hh", err) else "other"
+                c.violation("data-race: ThreadSanitizer reports a data race in foldfilter (%s): %s" % (site, " ".join(err[i:i + 400].split())),
+                            {"tool": "foldfilter -w 20 harness/children/child.py eager", "input": "3000 short lines", "site": site,
+                             "report": err[i:i + 1500]})
     return c.finish(level="proof",
                     rule="executions of the real templates under the deterministic scheduler: ALL interleavings (semaphore granularity) of 0-6 items for the unbounded queue incl. item counts crossing the 1023-entry page, PCQueue capacity 1-3 with 1-3 producers/consumers and <= 6 items, block-ring writes below/at/above the block size wrapping the 3-block ring; finest granularity (every shared access a scheduling point) for smaller scenarios; seeded random schedules for thousands of items; each execution compared step by step (thread, program point, enabled set, result) with the extracted Coq transition system; evaluations = executions",
                     assumptions=["semaphores and mutexes are sequentially consistent synchronisation primitives; effects of a thread between two scheduling points are atomic w.r.t. the other threads (data races inside such a segment are only observed by the ASan/TSan runs)",
